@@ -74,10 +74,10 @@ Flags(md, mi) == [p2sh |-> FALSE, nulldummy |-> FALSE, discourage |-> FALSE, clt
                   dersig |-> FALSE, lows |-> FALSE, minimaldata |-> md, nullfail |-> FALSE, sigpushonly |-> FALSE,
                   forkid |-> FALSE, strictenc |-> FALSE, minimalif |-> mi, bip143 |-> FALSE]
 TwoCtxs == {[genesis |-> g, f |-> [Flags(FALSE, FALSE) EXCEPT !.p2sh = pc[1], !.cleanstack = pc[2], !.sigpushonly = so],
-              lt |-> <<0, 0, 0, 0>>, seq |-> <<255, 255, 255, 255>>, ver |-> <<1, 0, 0, 0>>] :
+              lt |-> <<0, 0, 0, 0>>, seq |-> <<255, 255, 255, 255>>, ver |-> <<1, 0, 0, 0>>, sigmode |-> "none", sx |-> <<>>] :
               g \in BOOLEAN, pc \in {<<FALSE, FALSE>>, <<TRUE, FALSE>>, <<TRUE, TRUE>>}, so \in BOOLEAN}
 Ctxs == IF Family \in {"two2", "two3"} THEN TwoCtxs ELSE
-        {[genesis |-> g, f |-> Flags(md, mi), lt |-> <<0, 0, 0, 0>>, seq |-> <<255, 255, 255, 255>>, ver |-> <<1, 0, 0, 0>>] :
+        {[genesis |-> g, f |-> Flags(md, mi), lt |-> <<0, 0, 0, 0>>, seq |-> <<255, 255, 255, 255>>, ver |-> <<1, 0, 0, 0>>, sigmode |-> "none", sx |-> <<>>] :
            g \in BOOLEAN, md \in BOOLEAN, mi \in IF Family \in {"flow5", "flow4", "unary", "nonmin"} THEN BOOLEAN ELSE {FALSE}}
 
 VARIABLES prog, cx, vm, started
